@@ -41,7 +41,10 @@ package sim
 
 //@ func (*simEC).NotifyDecision
 //@   property C19
-//@   requires forall(i, 0, len(ec.instances), tableOK(ec.instances[i].PowerTable) && ssumDef(ec.instances[i].PowerTable.ScaledPower, decision.Signers) && ec.instances[i].ec == ec)
+//@   harness harness/sim_notify_test.go
+//@   requires decision.Vote.Instance < len(ec.instances) ==> tableOK(ec.instances[decision.Vote.Instance].PowerTable)
+//@        && ssumDef(ec.instances[decision.Vote.Instance].PowerTable.ScaledPower, decision.Signers)
+//@        && ec.instances[decision.Vote.Instance].ec == ec
 //@   modifies auto
 //@   ensures[unknown_instance_is_recorded_as_error] old(len(ec.instances)) <= old(decision.Vote.Instance) ==> len(ec.errors) == old(len(ec.errors)) + 1
 //@   ensures[errors_only_grow] len(ec.errors) >= old(len(ec.errors))
